@@ -51,4 +51,12 @@ CHECKS = {
         "require_classes": ["walk:complete", "walk:refused", "modules:complete", "history:done", "load:ok"],
         "assumptions": ["regions are as large as they declare"],
     },
+    "C05": {
+        "bin": "c05",
+        "cfgs": {"quick": ["dD", "rD"], "thorough": ["dD", "rD", "dN", "rN"]},
+        "technique": MC,
+        "rule": "one leaf per (DST kind, declared size, framebuffer variant, seam); every declared size of the stated interval is enumerated for every kind; distinct by construction; all leaves non-trivial (each is one size residue / boundary of one fixed-part constant)",
+        "require_classes": ["view:ok", "view:refused"],
+        "assumptions": ["enumerated fields of the header tag hold defined values"],
+    },
 }
